@@ -1,11 +1,18 @@
 package s0336
 
 type G1 struct {
-	F2x0 uint32
+	F0x0 int32
+}
+
+type G3 struct {
+	F1x0x0 int64
+}
+
+type G2 struct {
+	F1x0 G3
 }
 
 type T struct {
-	F0 *int32
-	F1 []int64
-	F2 G1
+	F0 []G1
+	F1 *G2
 }
